@@ -1644,3 +1644,53 @@ func c03r5(rc *core.RC) {
 		rc.Unknown("encoder/embedded-struct-walkers", token.NoPos, "found %d of structCode and removeFieldsByTags", n)
 	}
 }
+
+// ---- C15.R17 a field's tagged-ness is fixed when the field is compiled ----
+
+// Whether a member name comes from a tag decides which of several same-named fields at one embedding depth wins
+// (encoding/json: the tagged one, at every depth). The flag is set where the field code is made; nothing may clear
+// or change it later (the encoder used to clear it for fields promoted through two or more embeddings).
+func c15r17(rc *core.RC) {
+	p := rc.P
+	n := 0
+	bad := false
+	for _, fd := range p.Funcs("encoder") {
+		if fd.Body == nil {
+			continue
+		}
+		info := p.Info(fd)
+		fn := p.FuncName(fd)
+		ast.Inspect(fd.Body, func(m ast.Node) bool {
+			switch x := m.(type) {
+			case *ast.KeyValueExpr:
+				if id, ok := x.Key.(*ast.Ident); ok && id.Name == "isTaggedKey" {
+					if f, isField := core.ObjOf(info, id).(*types.Var); isField && f.IsField() {
+						n++
+					}
+				}
+			case *ast.AssignStmt:
+				for _, l := range x.Lhs {
+					sel, ok := core.Unparen(l).(*ast.SelectorExpr)
+					if !ok || sel.Sel.Name != "isTaggedKey" {
+						continue
+					}
+					if f := core.FieldOf(info, sel); f == nil || !strings.HasSuffix(f.Type().String(), "bool") {
+						continue
+					}
+					n++
+					bad = true
+					rc.Touch(fn)
+					rc.Bad(fn+"/isTaggedKey-reassigned", x.Pos(), "%s assigns to isTaggedKey of an existing field code (%s): the tagged field no longer wins over untagged fields of the same name, so both are dropped (struct{ A; B } with A and B embedding structs that hold X tagged and X untagged encodes as {} instead of {\"X\":…})", fn, core.Src(p.Fset, x))
+				}
+			}
+			return true
+		})
+	}
+	if n < 1 {
+		rc.Unknown("encoder/isTaggedKey", token.NoPos, "the field isTaggedKey of the encoder's field codes was not found")
+		return
+	}
+	if !bad {
+		rc.OK("encoder/isTaggedKey-set-once", token.NoPos, "isTaggedKey is set in the literals that make a field code and assigned nowhere else")
+	}
+}
